@@ -199,7 +199,7 @@ class Opaque(Sort):
       # inconsistent with the constant-true array)
       other = z3.Function('other!' + self.name, self.z3(), self.z3())
       x_ = z3.Const('x!' + self.name, self.z3())
-      out.append(z3.ForAll([x_], other(x_) != x_, patterns=[other(x_)]))
+      out.append(qforall([x_], other(x_) != x_, patterns=[other(x_)]))
     return out
 
   def fresh_of(self, set_term):
@@ -240,7 +240,7 @@ class SeqOf(Sort):
     i = z3.Int(fresh_name('i'))
     inner = self.elem.wf(self.get(t, i))
     if inner:
-      out.append(z3.ForAll([i], z3.Implies(z3.And(i >= 0, i < self.len(t)), z3.And(*inner)),
+      out.append(qforall([i], z3.Implies(z3.And(i >= 0, i < self.len(t)), z3.And(*inner)),
                            patterns=[self.get(t, i)]))
     return out
 
@@ -332,10 +332,10 @@ class MapOf(Sort):
     inr = lambda x: z3.And(x >= 0, x < S.len(ks))
     return [
       S.len(ks) >= 0,
-      z3.ForAll([i], z3.Implies(inr(i), self.has(t, S.get(ks, i))), patterns=[S.get(ks, i)]),
-      z3.ForAll([k], z3.Implies(self.has(t, k), z3.And(inr(idx(k)), S.get(ks, idx(k)) == k)),
+      qforall([i], z3.Implies(inr(i), self.has(t, S.get(ks, i))), patterns=[S.get(ks, i)]),
+      qforall([k], z3.Implies(self.has(t, k), z3.And(inr(idx(k)), S.get(ks, idx(k)) == k)),
                 patterns=[self.has(t, k)]),
-      z3.ForAll([i, j], z3.Implies(z3.And(inr(i), inr(j), S.get(ks, i) == S.get(ks, j)), i == j),
+      qforall([i, j], z3.Implies(z3.And(inr(i), inr(j), S.get(ks, i) == S.get(ks, j)), i == j),
                 patterns=[z3.MultiPattern(S.get(ks, i), S.get(ks, j))]),
     ]
 
@@ -344,7 +344,7 @@ class MapOf(Sort):
     k = z3.Const(fresh_name('k'), self.key.z3())
     inner = self.val.wf(self.get(t, k))
     if inner:
-      out.append(z3.ForAll([k], z3.Implies(self.has(t, k), z3.And(*inner)), patterns=[self.get(t, k)]))
+      out.append(qforall([k], z3.Implies(self.has(t, k), z3.And(*inner)), patterns=[self.get(t, k)]))
     return out
 
   def abstract(self, py):
@@ -451,7 +451,7 @@ class Union(Sort):
           for f in inner:
             facts.append(z3.Implies(self.is_(c.name, x), f))
       nontrivial = any(not (fs == 'SELF') and fs.wf(self.acc(c.name, fn, x)) for c in self.ctors.values() for fn, fs in c.fields)
-      self._wfax = [z3.ForAll([x], z3.Implies(self.wf_pred()(x), z3.And(*facts)), patterns=[self.wf_pred()(x)])] if nontrivial else []
+      self._wfax = [qforall([x], z3.Implies(self.wf_pred()(x), z3.And(*facts)), patterns=[self.wf_pred()(x)])] if nontrivial else []
     return self._wfax
 
   def acc(self, ctor, fname, t):
